@@ -63,10 +63,19 @@ def _find_defining_names(module_context, tree_name):
     found_names |= set(_find_global_variables(found_names, tree_name.value))
     for name in list(found_names):
         if name.api_type == 'param' or name.tree_name is None \
-                or name.tree_name.parent.type == 'trailer':
+                or name.tree_name.parent.type == 'trailer' \
+                or _is_keyword_argument_name(name.tree_name):
             continue
         found_names |= set(_add_names_in_same_context(name.parent_context, name.string_name))
     return set(_resolve_names(found_names))
+
+
+def _is_keyword_argument_name(tree_name):
+    # The `foo` in `func(foo=3)` names a param of `func`, it's not a name of
+    # the scope the call is in.
+    argument = tree_name.parent
+    return argument.type == 'argument' and argument.children[0] is tree_name \
+        and len(argument.children) > 1 and argument.children[1] == '='
 
 
 def _find_names(module_context, tree_name):
